@@ -2,7 +2,7 @@
 # usage: selftest/validate_seed.sh <src dir with patch.diff demo.py meta.json> <seed id>
 # Confirms in a scratch worktree of the pinned commit: patch applies, demo fails with it,
 # the repository's suite passes with it, demo passes without it. Writes /verif/seeded/<id>/.
-src="$1"; id="$2"; PIN=d63160f
+src="$1"; id="$2"; PIN="${3:-d63160f}"
 wt=/tmp/vseed-$id
 dst=/verif/seeded/$id
 rm -rf "$wt"; git -C /repo worktree add -q --detach "$wt" $PIN || exit 9
@@ -14,7 +14,7 @@ suite=$(timeout 1500 /venv/bin/python -m pytest -q -p no:cacheprovider -n 6 --ti
 git checkout -- .
 timeout 300 /venv/bin/python "$src/demo.py" > "$dst/demo_on_pinned.log" 2>&1; d_pin=$?
 cd /; git -C /repo worktree remove --force "$wt"
-cp "$src/patch.diff" "$dst/patch.pinned.diff"; cp "$src/demo.py" "$dst/demo.py"; cp "$src/meta.json" "$dst/agent_meta.json" 2>/dev/null
+if [ "$PIN" = d63160f ]; then cp "$src/patch.diff" "$dst/patch.pinned.diff"; else cp "$src/patch.diff" "$dst/patch.diff"; fi; cp "$src/demo.py" "$dst/demo.py"; cp "$src/meta.json" "$dst/agent_meta.json" 2>/dev/null
 tail -3 "$dst/demo_on_mutant.log" > "$dst/demo_on_mutant.tail"; rm -f "$dst/demo_on_mutant.log" "$dst/demo_on_pinned.log"
-echo "{\"id\": \"$id\", \"apply_on_pinned\": \"$res_apply\", \"demo_exit_on_mutant\": $d_mut, \"demo_exit_on_pinned\": $d_pin, \"suite_on_mutant\": \"$suite\"}" > "$dst/validation.json"
+echo "{\"id\": \"$id\", \"base\": \"$PIN\", \"apply_on_base\": \"$res_apply\", \"demo_exit_on_mutant\": $d_mut, \"demo_exit_on_pinned\": $d_pin, \"suite_on_mutant\": \"$suite\"}" > "$dst/validation.json"
 cat "$dst/validation.json"
